@@ -1,6 +1,7 @@
 (* C17  Subscribers see every applied event once, in order, with resulting state (machine level). *)
 From Coq Require Import List NArith ZArith String Bool.
 From DT Require Import GenStatus GenEvent FsmTypes GenFsm Fsm Machine FsmFacts MachineFacts C17Proofs.
+From DT Require Subs C17Subs.
 Import ListNotations.
 
 (* for every schedule: the announcements are exactly the planned (applied) events in plan
@@ -24,3 +25,49 @@ Theorem C17_invalid_not_announced :
     m_step m LPlan = (RecordUpdate.RecordSet.set m_queue (fun _ => q) m, []).
 Proof. exact invalid_not_announced. Qed.
 Print Assumptions C17_invalid_not_announced.
+
+(* ---------- subscriber windows (Subs.v: pubsub fan-out + per-transfer table) ---------- *)
+(* a per-transfer subscriber receives only its own channel's events *)
+Theorem C17_per_transfer_only_own_channel :
+  forall ops s s' calls i n e, Subs.srun s ops = (s', calls) -> In (Subs.ST i n, e) calls -> fst e = i.
+Proof. exact C17Subs.per_transfer_only_own_channel. Qed.
+Print Assumptions C17_per_transfer_only_own_channel.
+
+(* ... every one of them while registered ... *)
+Theorem C17_per_transfer_sees_own_events :
+  forall s k c term, exists s',
+    Subs.sstep s (Subs.ONotify k c term) =
+      (s', map (fun n => (Subs.ST k n, (k, c))) (Subs.per_of k (Subs.ss_per s)) ++
+           map (fun n => (Subs.SG n, (k, c))) (Subs.ss_global s)).
+Proof. exact C17Subs.per_transfer_sees_own_events. Qed.
+Print Assumptions C17_per_transfer_sees_own_events.
+
+(* ... and is released when the channel terminates *)
+Theorem C17_per_transfer_released_at_termination :
+  forall s k code ops s1 c1 s2 c2,
+    Subs.sstep s (Subs.ONotify k code true) = (s1, c1) ->
+    forallb (C17Subs.no_resub k) ops = true ->
+    Subs.srun s1 ops = (s2, c2) ->
+    forall n e, ~ In (Subs.ST k n, e) c2.
+Proof. exact C17Subs.per_transfer_released_at_termination. Qed.
+Print Assumptions C17_per_transfer_released_at_termination.
+
+(* a (global) subscriber is called exactly once for each announced event, in order, for as long
+   as it stays subscribed *)
+Theorem C17_global_subscriber_sees_every_event_once :
+  forall n ops s s' calls,
+    count_occ N.eq_dec (Subs.ss_global s) n = 1 ->
+    forallb (fun o => negb (C17Subs.touches n o)) ops = true ->
+    Subs.srun s ops = (s', calls) ->
+    Subs.log_of (Subs.SG n) calls = C17Subs.notifs ops.
+Proof. exact C17Subs.global_subscriber_sees_every_event_once. Qed.
+Print Assumptions C17_global_subscriber_sees_every_event_once.
+
+(* and not at all for events announced after its unsubscribe returned *)
+Theorem C17_not_called_after_unsubscribe :
+  forall n s ops s' calls,
+    forallb (fun o => negb (C17Subs.touches n o)) ops = true ->
+    Subs.srun (fst (Subs.sstep s (Subs.OUnsub n))) ops = (s', calls) ->
+    Subs.log_of (Subs.SG n) calls = [].
+Proof. exact C17Subs.not_called_after_unsubscribe. Qed.
+Print Assumptions C17_not_called_after_unsubscribe.
